@@ -27,7 +27,7 @@ ASSUMPTIONS = [
     "schedule irrelevance of the collector (collect-always vs paced) is C01's theorem and runs",
 ]
 FEATURES = ["safe_stack", "safe_active_fiber", "safe_class_lookup", "safe_vm_opcodes", "debug_stress_gc"]
-PROFILES = ["expr", "control", "closures", "classes", "exceptions", "fibers", "iteration", "data", "alloc"]
+PROFILES = ["expr", "control", "closures", "classes", "exceptions", "fibers", "iteration", "data", "alloc", "typed", "typed-try"]
 
 
 def configs(thorough):
